@@ -195,3 +195,7 @@ func H02f_RootOfTrustToOptions() {
 		vp.Assert("pool-holds-exactly-the-listed-certificates", got[i] == listed[i])
 	}
 }
+
+// thorough tier: longer chains of blocks and larger pools
+func T02i_5blocks_pool2() { h02(5, 2) }
+func T02j_3blocks_pool3() { h02(3, 3) }
